@@ -1,8 +1,8 @@
 (** C01 Lossless syntax tree.  ONLY statements; proofs are in proofs/ParserTile.v, proofs/GTile.v. *)
 From Coq Require Import List NArith.
-From TG.Gen Require Import GenTokens GenGrammar.
+From TG.Gen Require Import GenTokens GenGrammar GenGrammarCert.
 From TG.Model Require Import Chars Lexer Prep Tree ParserPrims GInterp.
-From TG.Proofs Require Import LexBasics ParserTile GTile.
+From TG.Proofs Require Import LexBasics ParserTile GTile LookProg ParserTop.
 Import ListNotations.
 Open Scope N_scope.
 
@@ -13,6 +13,34 @@ Definition C01_lossless_stmt (txt : text) (t : tree) : Prop :=
   concat (map leaf_text (leaves t)) = txt /\
   running 0 (leaves t) /\
   Forall (leaf_on_boundary txt) (leaves t).
+
+(** THE PROPERTY, for the grammar regenerated from the current sources: every completed parse of every text,
+    with any fuel, yields a lossless tree.  (That a parse always completes is C02_total.)
+    Proof: G-tile for every program + A-eof: the certificate check [chk_all]/[chk_eof], evaluated by
+    vm_compute on gen/GenGrammar.v + gen/GenGrammarCert.v, shows that source_file returns only at Eof. *)
+Theorem C01_lossless :
+  forall (fuel : nat) (txt : text) t errs st,
+    parse_with fuel grammar_prog grammar_entry txt = ParseOk t errs st -> C01_lossless_stmt txt t.
+Proof. exact grammar_lossless. Qed.
+Check C01_lossless :
+  forall (fuel : nat) (txt : text) t errs st,
+    parse_with fuel grammar_prog grammar_entry txt = ParseOk t errs st -> C01_lossless_stmt txt t.
+Print Assumptions C01_lossless.
+
+(** The same for EVERY program and certificate accepted by the reflective checks (this is what is re-evaluated
+    when the grammar changes). *)
+Theorem C01_lossless_checked :
+  forall (p : prog) (ce : cert) (entry : nat),
+    chk_all p ce entry = true -> chk_eof ce entry = true ->
+    forall (fuel : nat) (txt : text) t errs st,
+      parse_with fuel p entry txt = ParseOk t errs st -> C01_lossless_stmt txt t.
+Proof. exact lossless_checked. Qed.
+Check C01_lossless_checked :
+  forall (p : prog) (ce : cert) (entry : nat),
+    chk_all p ce entry = true -> chk_eof ce entry = true ->
+    forall (fuel : nat) (txt : text) t errs st,
+      parse_with fuel p entry txt = ParseOk t errs st -> C01_lossless_stmt txt t.
+Print Assumptions C01_lossless_checked.
 
 (** For EVERY program of the grammar DSL (whatever tools/translate/t_grammar.py regenerates), every text
     and every fuel: a parse that ends with the look-ahead at Eof yields a lossless tree. *)
